@@ -301,6 +301,33 @@ def toposort (pick : List Comp → List Comp) (g : Graph) : Option (List Comp) :
 def run (w : World) (pick : List Comp → List Comp) (storeSkips : Bool) (g : Graph) (seed : Inst) : Option Broker :=
   (toposort pick g).map (fun o => runComponents w (fun c => g.keys.contains c) storeSkips o (Broker.seeded seed))
 
+/-! ### the loaded-archive branch of `dr.run` (dr.py:1122-1130)
+
+```
+if broker.get(SerializedArchiveContext) is not None:
+    for comp in list(components):
+        if comp in broker:
+            for dep in components[comp]:
+                components.pop(dep, None)
+```
+The keys are visited in the dict order they had when the loop started; a key that has a value has
+its dependencies popped; looking up a key that an earlier step popped is a `KeyError` (`none`). -/
+
+def archivePruneStep (seed : Inst) (g : Option Graph) (c : Comp) : Option Graph :=
+  g.bind fun g =>
+    if present seed c then
+      match g.find? (fun kv => kv.1 == c) with
+      | some kv => some (g.filter (fun e => !kv.2.contains e.1))
+      | none => none
+    else some g
+
+def archivePrune (seed : Inst) (g : Graph) : Option Graph :=
+  g.keys.foldl (archivePruneStep seed) (some g)
+
+/-- `dr.run(graph, broker)` for a dict graph when the broker holds a `SerializedArchiveContext` -/
+def runArchive (w : World) (pick : List Comp → List Comp) (storeSkips : Bool) (g : Graph) (seed : Inst) : Option Broker :=
+  (archivePrune seed g).bind (fun g' => run w pick storeSkips g' seed)
+
 end IV.Dr
 
 namespace IV.Dr
